@@ -189,11 +189,20 @@ def run(ctx):
                     o = s.op("logout") if between == "logout" else s.op("listscripts")
                     reqs.append(msref.req_op("logout" if between == "logout" else "listscripts", later=list(s.wire.segments[nseg:])))
                     outs.append(o)
-                srv2 = refserver.RefServer(r, starttls=True, sasl=b"PLAIN", post_tls_sasl=b"LOGIN")
+                # the second server announces LESS than the first (no VERSION): what the first one announced is void
+                srv2 = refserver.RefServer(r, starttls=True, sasl=b"PLAIN", post_tls_sasl=b"LOGIN", version=False, scripts={b"a": b"keep;\r\n"})
                 g = srv2.greeting()
                 out = s.connect(b"", [], "user", "pw", starttls=second_tls, server=srv2)
                 reqs.append(msref.req_connect(g, [], "user", "pw", starttls=second_tls, later=list(s.wire.segments)))
                 outs.append(out)
+                nseg = len(s.wire.segments)
+                out_r = s.op("renamescript", "a", "b")
+                reqs.append(msref.req_op("renamescript", "a", "b", later=list(s.wire.segments[nseg:])))
+                outs.append(out_r)
+                if srv2.log or b"b" not in srv2.scripts or b"a" in srv2.scripts:
+                    viol.append({"history": "connect → %s → connect to a server WITHOUT the VERSION capability → renamescript" % between,
+                                 "what": "the rename on the second connection did not go the way that server supports (capabilities of the first connection "
+                                         "still in use?): server log %r, scripts %r, result %s" % (srv2.log, sorted(srv2.scripts), out_r[:40])})
                 record(reqs, outs)
                 evals += 1
                 nontriv += 1
